@@ -30,6 +30,7 @@ ASSUMPTIONS = [
     "volume (16,17,18); template shapes 3^3, 4^3, 5^3, (3,4,5), (4,4,3)",
     "exact-paste cases: identity for every template shape, cube rotations for cubic templates, position integer (odd size) / half-integer (even size) per axis",
     "read-back accuracy 3% of the peak for analytic particles that vanish 2 px inside their box (statement's assumption), exact in the exact-paste case",
+    "added during the seeding waves: template dtypes, call histories with mutators (overwrite / add a component), simulate_projection and tilt series at zero tilt, simulate_2d at scales 0.25 / 0.5 / 2.5 with molecules down to z = 52 px",
 ]
 
 VOL = (16, 17, 18)
